@@ -15,6 +15,7 @@ from fractions import Fraction
 import numpy as np
 
 from engine import families as fam, vkit
+from . import common
 
 ID = "C19"
 LEVEL = "exploration"
@@ -58,6 +59,10 @@ def build_cases(tier, seed):
     else:
         nine = fam.bullet_family(3) + fam.perm_family(3)
         profs = profs + [c for c in fam.prof_list(nine, 3, (1, 2), c3) if len(c[1]) == 3][::3]
+    n_lin = len(profs)
+    # ballots with tied positions: a tied ranking is a ranking of its own in the distribution
+    wk = common.weak_profiles("quick")
+    profs = profs + [c for c in wk[:: (40 if tier == "quick" else 10)] if any(len(pos) > 1 for r, _ in c[1] for pos in r)]
     _PROFS = profs
     _DISTS = [_dist(c) for c in profs]
     n = len(profs)
@@ -74,17 +79,18 @@ def build_cases(tier, seed):
     for k in range(2, 6 if tier == "quick" else 7):
         for r in fam.rank_family(k):
             cs.append(("load", (k, r)))
-    for i in range(0, n, 3):
+    for i in range(0, n_lin, 3):
         cs.append(("loadprof", i))
     _CASES = cs
     meta = {
         "family": ("quick: 45 single-type + every 4th two-type profile of " if tier == "quick" else "all of ")
                   + "Prof(Rank(3),2,{1,2,1/2})" + ("" if tier == "quick" else " + every 3rd three-type profile over Bullet(3)+Perm(3) with weights {1,2}")
+                  + " + a slice of Prof(Weak(3),2,{1,2}) containing tied positions"
                   + f" = {n} profiles; all ordered pairs x p in {PVALS} against exact rationals, all triples (triangle inequality on the cached "
                   "matrix), variants (every ballot order, condensed, all weights x2 and x1/3); BallotGraph(n) for n=2..6 against the definition; "
                   "every single ballot of Rank(n) loaded onto the graph",
         "assumptions": ["floating point: |d - exact| and symmetry/triangle slack 1e-12; d = 0 demanded exactly for equal distributions",
-                        "profiles over a common candidate set, untied rankings"],
+                        "profiles over a common candidate set; the ballot graph only takes untied rankings"],
         "coverage": {"pairs": n * n * len(PVALS), "triples": n ** 3 * len(PVALS)},
     }
     return list(range(len(cs))), meta
